@@ -740,6 +740,11 @@ static void do_loop_cond_number () {
  *  The effect is that all called efuns knows that they won't have destructed objects as
  *  arguments.
  */
+#ifdef NEOLITH_VERIF
+/* verification hook: called once per executed instruction (NULL = off) */
+void (*verif_instr_hook) (int instruction) = 0;
+#endif
+
 void eval_instruction (const char *p) {
 
   int i, n;
@@ -765,6 +770,10 @@ void eval_instruction (const char *p) {
           eval_cost = CONFIG_INT (__MAX_EVAL_COST__);
           error ("*Too long evaluation. Execution aborted.");
         }
+#ifdef NEOLITH_VERIF
+      if (verif_instr_hook)
+        verif_instr_hook (instruction);
+#endif
       /*
        * Execute current instruction. Note that all functions callable from
        * LPC must return a value. This does not apply to control
